@@ -1,6 +1,4 @@
-import OjgVerif.Props.C10
-import OjgVerif.Writer.LemmasNum
-import OjgVerif.Json.NumLemmas
+import OjgVerif.Props.C10Num
 /-! # C10 on the tight writer model — whole trees
 
 `C10_tree_partial`: for every option combination of the tight sen.Writer (OmitNil, OmitEmpty, HTML-safe or not) and
@@ -233,158 +231,31 @@ theorem FOK_fS' (f : Fast) : FOK (fS f) := ⟨rfl, rfl⟩
 /-- the delimiters the tight writer puts after a scalar -/
 def isDelim (d : UInt8) : Prop := d = 32 ∨ d = 93 ∨ d = 125
 
-/-! ## integers -/
-
-/-- the accumulator holds the integer `v` exactly (sign apart), not in text form -/
-def NumOK (n : Num) (neg : Bool) (v : Nat) : Prop :=
-  n.big = [] ∧ n.i.toNat = v ∧ n.div = 1 ∧ n.exp = 0 ∧ n.neg = neg
-
-theorem NumOK_digit (n : Num) (neg : Bool) (v : Nat) (d : UInt8) (h : NumOK n neg v) (hv : v < 922337203685477580)
-    (hd : isDigitB d) :
-    NumOK ({ n with i := n.i * 10 + (d - 48).toUInt64 } : Num) neg (v * 10 + dval d) ∧
-    n.addDigit d = ({ n with i := n.i * 10 + (d - 48).toUInt64 } : Num) ∧ ¬ BigLimit ≤ n.i := by
-  obtain ⟨h1, h2, h3, h4, h5⟩ := h
-  have hdv : dval d ≤ 9 := by unfold dval; have := hd.2; omega
-  have hBL : BigLimit.toNat = 922337203685477580 := rfl
-  have hval : (n.i * 10 + (d - 48).toUInt64).toNat = v * 10 + dval d := by
-    simp only [UInt64.toNat_add, UInt64.toNat_mul, Json.digit_toUInt64 d hd, h2]
-    have : (10 : UInt64).toNat = 10 := rfl
-    rw [this]; omega
-  have hnle : ¬ BigLimit ≤ n.i := by rw [UInt64.le_iff_toNat_le, hBL, h2]; omega
-  have hle : n.i ≤ BigLimit := by rw [UInt64.le_iff_toNat_le, hBL, h2]; omega
-  refine ⟨⟨h1, hval, h3, h4, h5⟩, ?_, hnle⟩
-  unfold Num.addDigit
-  have hmax : ¬ Json.MaxInt64 < n.i * 10 + (d - 48).toUInt64 := by
-    rw [UInt64.lt_iff_toNat_lt, hval]
-    have hm : Json.MaxInt64.toNat = 9223372036854775807 := rfl
-    omega
-  simp only [h1, List.length_nil, Nat.lt_irrefl, ↓reduceIte, hle, hmax]
-
-theorem digit_numDigit (d : UInt8) (h : isDigitB d) : expected .digit d = .numDigit := by
-  have := forall_byte (fun b => !(48 ≤ b && b ≤ 57) || expected .digit b == .numDigit) (by decide +kernel) d
-  have h1 : (48 : UInt8) ≤ d := by rw [UInt8.le_iff_toNat_le]; exact h.1
-  have h2 : d ≤ (57 : UInt8) := by rw [UInt8.le_iff_toNat_le]; exact h.2
-  simpa [h1, h2] using this
-
-/-- one more digit of an integer that stays below the limit -/
-theorem step_numDigit (st : St) (f : Fast) (d : UInt8) (l : Bool) (neg : Bool) (v : Nat) (hm : st.mode = .digit)
-    (hf : f.nlSkipping = false) (hd : isDigitB d) (hn : NumOK st.num neg v) (hv : v < 922337203685477580) :
-    ∃ f', f'.nlSkipping = false ∧
-      step refTables {} st f d l = .ok ({ st with num := { st.num with i := st.num.i * 10 + (d - 48).toUInt64 } }, f', false) := by
-  obtain ⟨hok, hadd, hnle⟩ := NumOK_digit st.num neg v d hn hv hd
-  have hact := digit_numDigit d hd
-  refine ⟨{ inFast := f.inFast && !(BigLimit ≤ st.num.i), tokFast := f.tokFast, nlSkipping := false }, rfl, ?_⟩
-  simp [step, stepCore, stepAct, stepActP, nextFast, deliver, refTables, expectedFin, hm, hf, hact, hadd, hnle]
+/-! ## integers (single steps and `NumOK`: Props/C10Int.lean) -/
 
 /-- a pending number is completed by the delimiter that follows it: the step is the step of the completed state -/
-theorem step_numEnd (st : St) (f : Fast) (d : UInt8) (l : Bool) (hm : st.mode = .digit ∨ st.mode = .zero)
+theorem step_numEnd (st : St) (f : Fast) (d : UInt8) (l : Bool) (hm : NumMode st.mode)
     (hin : Inner st) (hd : isDelim d) (hf : f.nlSkipping = false) :
     step refTables {} st f d l = step refTables {} (st.pushed st.num.asNum.toJV) f d l := by
   rcases hin with ⟨j, o, h1⟩ | ⟨o, k, kvs, r, h1, h2⟩
-  · rcases hm with hm | hm <;> rcases hd with rfl | rfl | rfl <;>
+  · rcases hm with hm | hm | hm | hm <;> rcases hd with rfl | rfl | rfl <;>
       simp [step, stepCore, stepAct, stepActP, nextFast, refTables, expected, expectedNumEnd, expectedFin, isSep, isBlank,
         isDigit, isDigit19, isE, St.flushP, St.flushCloseP, St.add, St.addIgnore, St.pushed, deliver, hm, h1, hf,
         Functor.map, Except.map, Bind.bind, Except.bind, Pure.pure, Except.pure]
-  · rcases hm with hm | hm <;> rcases hd with rfl | rfl | rfl <;>
+  · rcases hm with hm | hm | hm | hm <;> rcases hd with rfl | rfl | rfl <;>
       simp [step, stepCore, stepAct, stepActP, nextFast, refTables, expected, expectedNumEnd, expectedFin, isSep, isBlank,
         isDigit, isDigit19, isE, St.flushP, St.flushCloseP, St.add, St.addIgnore, St.setMember, topIsKey, St.pushed, deliver,
         hm, h1, h2, hf, Functor.map, Except.map, Bind.bind, Except.bind, Pure.pure, Except.pure]
 
-theorem d19_digit (d : UInt8) (h : Json.Spec.isDigit19 d = true) : isDigitB d ∧ 1 ≤ dval d := by
-  simp only [Json.Spec.isDigit19, Bool.and_eq_true, decide_eq_true_eq, UInt8.le_iff_toNat_le] at h
-  have h1 : (49 : UInt8).toNat = 49 := rfl
-  have h2 : (57 : UInt8).toNat = 57 := rfl
-  rw [h1, h2] at h
-  exact ⟨⟨by omega, by omega⟩, by unfold dval; omega⟩
-
-theorem d_digit (d : UInt8) (h : Json.Spec.isDigit d = true) : isDigitB d := by
-  simp only [Json.Spec.isDigit, Bool.and_eq_true, decide_eq_true_eq, UInt8.le_iff_toNat_le] at h
-  have h1 : (48 : UInt8).toNat = 48 := rfl
-  have h2 : (57 : UInt8).toNat = 57 := rfl
-  rw [h1, h2] at h
-  exact ⟨by omega, by omega⟩
-
-theorem value_d19 (d : UInt8) (h : Json.Spec.isDigit19 d = true) :
-    expected .value d = .valDigit ∧ expected .neg d = .negDigit := by
-  have := forall_byte (fun b => !(49 ≤ b && b ≤ 57) || (expected .value b == .valDigit && expected .neg b == .negDigit))
-    (by decide +kernel) d
-  simp only [Json.Spec.isDigit19] at h
-  simpa [h] using this
-
-/-- the first digit (1..9) of a positive integer -/
-theorem step_valDigit (st : St) (f : Fast) (d : UInt8) (l : Bool) (hm : st.mode = .value) (hf : f.nlSkipping = false)
-    (hd : Json.Spec.isDigit19 d = true) :
-    step refTables {} st f d l =
-      .ok ({ st with mode := .digit, num := { st.num.reset with i := (d - 48).toUInt64 } },
-           { inFast := true, tokFast := f.tokFast, nlSkipping := false }, false) := by
-  have ha := (value_d19 d hd).1
-  simp [step, stepCore, stepAct, stepActP, nextFast, deliver, refTables, expectedFin, hm, hf, ha]
-
-/-- `0` -/
-theorem step_val0 (st : St) (f : Fast) (l : Bool) (hm : st.mode = .value) (hf : f.nlSkipping = false) :
-    step refTables {} st f 48 l = .ok ({ st with mode := .zero, num := st.num.reset }, fS f, false) := by
-  simp [step, stepCore, stepAct, stepActP, nextFast, deliver, refTables, expected, expectedFin, isSep, isBlank, isDigit19,
-    hm, hf, fS]
-
-/-- `-` -/
-theorem step_valNeg (st : St) (f : Fast) (l : Bool) (hm : st.mode = .value) (hf : f.nlSkipping = false) :
-    step refTables {} st f 45 l = .ok ({ st with mode := .neg, num := { st.num.reset with neg := true } }, fS f, false) := by
-  simp [step, stepCore, stepAct, stepActP, nextFast, refTables, expected, isSep, isBlank, isDigit19, hm, hf, fS]
-
-/-- the first digit (1..9) after `-` -/
-theorem step_negDigit (st : St) (f : Fast) (d : UInt8) (l : Bool) (hm : st.mode = .neg) (hf : f.nlSkipping = false)
-    (hd : Json.Spec.isDigit19 d = true) :
-    step refTables {} st f d l = .ok ({ st with num := st.num.addDigit d, mode := .digit }, fS f, false) := by
-  have ha := (value_d19 d hd).2
-  simp [step, stepCore, stepAct, stepActP, nextFast, deliver, refTables, expectedFin, hm, hf, ha, fS]
-
-theorem foldl_ge (ds : Bytes) (a : Nat) : a ≤ ds.foldl (fun a b => a * 10 + dval b) a := by
-  induction ds generalizing a with
-  | nil => exact Nat.le_refl _
-  | cons d r ih =>
-    simp only [List.foldl_cons]
-    have := ih (a * 10 + dval d)
-    omega
-
-/-- the remaining digits of an integer below the limit -/
-theorem digits_run (ds : Bytes) : ∀ (st : St) (f : Fast) (p : Pos) (rest : Bytes) (neg : Bool) (v : Nat),
-    st.mode = .digit → f.nlSkipping = false → (∀ d ∈ ds, isDigitB d) → NumOK st.num neg v →
-    ds.foldl (fun a b => a * 10 + dval b) v < 9223372036854775800 →
-    ∃ n' f' p', runBytes refTables {} st f p (ds ++ rest) = runBytes refTables {} { st with num := n' } f' p' rest ∧
-      f'.nlSkipping = false ∧ NumOK n' neg (ds.foldl (fun a b => a * 10 + dval b) v) := by
-  induction ds with
-  | nil => intro st f p rest neg v hm hf _ hn _; exact ⟨st.num, f, p, rfl, hf, hn⟩
-  | cons d r ih =>
-    intro st f p rest neg v hm hf hds hn hv
-    have hd := hds d List.mem_cons_self
-    simp only [List.foldl_cons] at hv ⊢
-    have hge := foldl_ge r (v * 10 + dval d)
-    have hvs : v < 922337203685477580 := by omega
-    obtain ⟨f1, hf1, hstep⟩ := step_numDigit st f d true neg v hm hf hd hn hvs
-    have hstep' : ∀ l, step refTables {} st f d l =
-        .ok ({ st with num := { st.num with i := st.num.i * 10 + (d - 48).toUInt64 } }, f1, false) := by
-      intro l
-      obtain ⟨f2, _, h2⟩ := step_numDigit st f d l neg v hm hf hd hn hvs
-      -- the fast-path record does not depend on `l`
-      have : step refTables {} st f d l = step refTables {} st f d true := by
-        simp [step, hf]
-      rw [this, hstep]
-    obtain ⟨hok, _, _⟩ := NumOK_digit st.num neg v d hn hvs hd
-    obtain ⟨n', f', p', hrun, hf', hn'⟩ := ih { st with num := { st.num with i := st.num.i * 10 + (d - 48).toUInt64 } } f1
-      (p.next false) rest neg (v * 10 + dval d) hm hf1 (fun x hx => hds x (List.mem_cons_of_mem _ hx)) hok hv
-    refine ⟨n', f', p', ?_, hf', hn'⟩
-    rw [List.cons_append, runBytes_cons_ok {} hstep']
-    exact hrun
-
 /-! ## done -/
 
 /-- the value is complete (`tgt` up to scratch), or it is a bare token or an integer that is still pending and
-that the next delimiter will complete to `tgt` -/
+that the next delimiter will complete to `tgt` (a number: any of the modes `digit`, `zero`, `frac`, `exp`) -/
 def DoneV (st : St) (f : Fast) (tgt : St) : Prop :=
   f.nlSkipping = false ∧ ((CoreEq st tgt ∧ f.inFast = false) ∨
     (st.mode = .token ∧ f.tokFast = true ∧ f.inFast = false ∧ Inner st ∧
       CoreEq (st.pushed (tokenValue st.tmp.reverse)) tgt) ∨
-    ((st.mode = .digit ∨ st.mode = .zero) ∧ Inner st ∧ CoreEq (st.pushed st.num.asNum.toJV) tgt))
+    (NumMode st.mode ∧ Inner st ∧ CoreEq (st.pushed st.num.asNum.toJV) tgt))
 
 theorem delim_facts (d : UInt8) (h : isDelim d) : expected .token d ≠ .tokenOk ∧ d ≠ 40 := by
   rcases h with rfl | rfl | rfl <;> exact ⟨by decide +kernel, by decide⟩
@@ -576,7 +447,7 @@ theorem value_int (i : Int) (hi : -9223372036854775800 < i ∧ i < 9223372036854
       subst hi0
       let s1 : St := { st with mode := .zero, num := st.num.reset }
       have e1 : ∀ l, step refTables {} st f 48 l = .ok (s1, fS f, false) := fun l => step_val0 st f l hm hf.1
-      refine ⟨s1, fS f, p.next false, ?_, rfl, Or.inr (Or.inr ⟨Or.inr rfl, hin, ?_⟩)⟩
+      refine ⟨s1, fS f, p.next false, ?_, rfl, Or.inr (Or.inr ⟨Or.inr (Or.inl rfl), hin, ?_⟩)⟩
       · show runBytes refTables {} st f p (48 :: rest) = _
         exact runBytes_cons_ok {} e1
       · have ea : s1.num.asNum.toJV = .int 0 := by
@@ -606,6 +477,18 @@ theorem value_int (i : Int) (hi : -9223372036854775800 < i ∧ i < 9223372036854
           congr 1; omega
         rw [ea]
         exact pushed_core _ st _ hin rfl rfl rfl rfl
+
+/-- a float (or any number literal of the grammar, `NumAdm`): after the literal the number is pending, and it is the
+number the JSON machine reads from the same literal (`Json.numConv`; numeric clause: `numDoc_exact`) -/
+theorem value_flt (t : Bytes) (hadm : NumAdm t) (st : St) (f : Fast) (p : Pos)
+    (rest : Bytes) (hm : st.mode = .value) (hin : Inner st) (hf : FOK f) :
+    ∃ st' f' p', runBytes refTables {} st f p (t ++ rest) = runBytes refTables {} st' f' p' rest ∧
+      DoneV st' f' (st.pushed (Json.numConv t)) := by
+  obtain ⟨q, hw, hl, hb, rfl⟩ := hadm
+  obtain ⟨m, f', p', hrun, hm', hf'⟩ := num_run q hw hl hb st f p rest hm hf.1
+  refine ⟨{ st with mode := m, num := Json.acc q }, f', p', hrun, hf', Or.inr (Or.inr ⟨hm', hin, ?_⟩)⟩
+  rw [← numDoc_eq_numConv q hw hl]
+  exact pushed_core _ st _ hin rfl rfl rfl rfl
 
 /-! ## member names -/
 
@@ -675,13 +558,16 @@ end scalars
 /-! ## trees -/
 
 mutual
-  /-- what comes back: strings and member names sanitised (invalid UTF-8 replaced by U+FFFD), the members
+  /-- what comes back: strings and member names sanitised (invalid UTF-8 replaced by U+FFFD), a float as the number
+  `Json.numConv` of its text (an int64 when the text has neither fraction nor exponent, else the float64 /
+  json.Number of a text that denotes the same decimal number: `numDoc_exact`), the members
   `tightObject` passes over dropped, a repeated member name keeps its first position and its last value (the Go
   map) -/
   def nvVal (o : WOpts) : JV → JV
     | .str s => .str (sanitize s)
     | .arr xs => .arr (nvElems o xs)
     | .obj kvs => .obj (nvMembers o kvs [])
+    | .flt t => Json.numConv t      -- what `gen.Number` makes of the float text (also what `oj.Parse` reads from it)
     | v => v
   def nvElems (o : WOpts) : List JV → List JV
     | [] => []
@@ -696,12 +582,15 @@ mutual
   /-- the trees of the theorem: `null`, booleans, integers, strings, arrays, objects; no string (in value position)
   is one of the reserved words, no string or member name is written bare with a leading sign (the two known
   findings); the integers are those of absolute value below 9223372036854775800 (from there on the parser's
-  integer fast loop answers json.Number: known finding C03sen-int19); floats and json.Number are not covered -/
+  integer fast loop answers json.Number: known finding C03sen-int19); a float is given by its text, any literal of
+  the RFC 8259 number grammar (what strconv writes with format 'g' is one) whose integer part is below the same limit
+  (`NumAdm`); json.Number leaves are not covered -/
   def admVal (o : WOpts) : JV → Prop
     | .null => True
     | .bool _ => True
     | .str s => ¬ C10.reservedWord s ∧ ¬ C10.leadingSign s o.html
     | .int i => -9223372036854775800 < i ∧ i < 9223372036854775800
+    | .flt t => NumAdm t
     | .arr xs => admElems o xs
     | .obj kvs => admMembers o kvs
     | _ => False
@@ -992,7 +881,9 @@ theorem V_scalar (v : JV) (hadm : admVal o v) (hs : needSep v = true) : VClaim o
   | int i =>
     obtain ⟨st', f', p', h, hd⟩ := value_int i hadm st f p rest hm hin hf
     exact ⟨st', f', p', h, hd, fun h => by simp [needSep] at h⟩
-  | flt t => exact absurd hadm (by simp [admVal])
+  | flt t =>
+    obtain ⟨st', f', p', h, hd⟩ := value_flt t hadm st f p rest hm hin hf
+    exact ⟨st', f', p', h, hd, fun h => by simp [needSep] at h⟩
   | big t => exact absurd hadm (by simp [admVal])
   | num t => exact absurd hadm (by simp [admVal])
 
@@ -1022,7 +913,7 @@ theorem claims_all : ∀ n : Nat,
       | bool b => exact V_scalar o _ hadm rfl
       | str s => exact V_scalar o _ hadm rfl
       | int i => exact V_scalar o _ hadm rfl
-      | flt t => exact absurd hadm (by simp [admVal])
+      | flt t => exact V_scalar o _ hadm rfl
       | big t => exact absurd hadm (by simp [admVal])
       | num t => exact absurd hadm (by simp [admVal])
     · cases xs with
@@ -1091,6 +982,7 @@ mutual
     | .str s => WellFormedUtf8 s
     | .arr xs => plainElems o xs
     | .obj kvs => plainMembers o kvs ∧ (kvs.map Prod.fst).Nodup
+    | .flt t => Json.numConv t = .flt t      -- `1.5` is; `3` comes back as the int64 3, `1e+06` as the float of `1e6`
     | _ => True
   def plainElems (o : WOpts) : List JV → Prop
     | [] => True
@@ -1140,7 +1032,7 @@ theorem plain_all : ∀ (o : WOpts) (n : Nat),
       | null => rfl
       | bool b => rfl
       | int i => rfl
-      | flt t => rfl
+      | flt t => exact hp
       | big t => rfl
       | num t => rfl
     · cases xs with
